@@ -110,7 +110,9 @@ def run(F, R, tier):
     if R.anchor("Pcap::next_packet", np_):
         # next_packet and the private helpers of pcap.rs it reads records through (`read_record<R: Read>`)
         cgx = M.CallGraph(F)
-        np_fns = [q for q in sorted(cgx.reachable_from([PCAP + "Pcap::next_packet"])) if q in F.fns and F.fns[q]["file"] == np_["file"] and F.fns[q].get("mir")
+        # (... or through methods of the file handle itself: `self.file.read_exact_bytes(&mut buf)` in object/file.rs)
+        np_fns = [q for q in sorted(cgx.reachable_from([PCAP + "Pcap::next_packet"])) if q in F.fns and
+                  (F.fns[q]["file"] == np_["file"] or F.fns[q]["file"].endswith("object/file.rs")) and F.fns[q].get("mir")
                   and (q == PCAP + "Pcap::next_packet" or not q.startswith("<"))]
         n_read = 0
         for q in np_fns:
@@ -121,9 +123,11 @@ def run(F, R, tier):
                 n_read += 1
                 nxt = B.blocks[t["t"]]["term"] if t.get("t") is not None else {}
                 ok = nxt.get("k") == "call" and (nxt.get("callee") or "").endswith("Try>::branch")
-                if not ok and not t["dest"]["p"] and t["dest"]["l"] == 0 and nxt.get("k") in ("return", "drop", "goto") and "{closure" in q:
-                    # a closure whose value is the read's result (`|buf| reader.read_exact(buf)`): the result goes to the
-                    # caller of the closure, whose call is itself an io::Result producer under C22's propagation rule
+                if not ok and not t["dest"]["p"] and t["dest"]["l"] == 0 and nxt.get("k") in ("return", "drop", "goto") and \
+                        "std::io::Error" in (B.local_ty(0) or ""):
+                    # the read's result is the value of the function (a closure `|buf| reader.read_exact(buf)`, a method
+                    # `fn read_exact_bytes(&self, buf) -> io::Result<()>`): it goes to the caller, whose call is itself an
+                    # io::Result producer under C22's propagation rule
                     ok = True
                 R.ob("read-exact-propagated", "next_packet read_exact #%d" % n_read, ok, "result is consumed by `?`", F.loc(F.fns[q], t.get("line")))
         # two reads per record (header, payload), once per handle kind or once in a shared generic helper
@@ -160,7 +164,12 @@ def run(F, R, tier):
                         seq = [H.last(c.get("callee") or c.get("m") or "?") for c in H.walk(a["body"])
                                if c.get("k") in ("call", "mcall") and H.last(c.get("callee") or "") not in ("borrow_mut", "stdin", "new", "branch", "from_residual")]
                         arms.append((sorted(vs), seq))
-        ok = len(arms) == 2 and arms[0][1] == arms[1][1]
+        # one match per read (a shared `read_exact_bytes` helper read in place twice) is as good as one match around both reads:
+        # the Reader and the Stdin arm of each must agree
+        by_match = {}
+        for vs_, seq_ in arms:
+            by_match.setdefault(tuple(vs_), []).append(seq_)
+        ok = len(arms) >= 2 and len(arms) % 2 == 0 and set(by_match) == {("Reader",), ("Stdin",)} and by_match[("Reader",)] == by_match[("Stdin",)]
         R.ob("reader-branches-agree", "file and stdin branches of next_packet perform the same call sequence", ok,
              "; ".join("%s: %s" % a for a in arms)[:300], F.loc(np_))
     # fixed-size structures (global header, record header, record payload) are read completely or not at all: the pcap
